@@ -152,7 +152,7 @@ From BWValues Require Import Bytes Values Codec Uuid Io Dom Corr.
 """
 
 
-def model_eval(ctx, name, rows, shard=600):
+def model_eval(ctx, name, rows, shard=600, quote_instance=None):
     """returns (mismatch indices, in-domain indices, indices with an ill-formed observed value) over rows, the model
     evaluated inside Coq"""
     bad, dom, ill = [], [], []
@@ -163,7 +163,14 @@ def model_eval(ctx, name, rows, shard=600):
         v += "Definition M := Eval vm_compute in mismatches_from O 0%N cases.\nPrint M.\n"
         v += "Definition D := Eval vm_compute in in_domain_from 0%N cases.\nPrint D.\n"
         v += "Definition W := Eval vm_compute in illformed_from 0%N cases.\nPrint W.\n"
+        if quote_instance is not None:
+            v += "From BWValues Require Import Instance.\n"
+            v += "Definition QM := Eval vm_compute in quote_g_mismatches 0%N (Corr.t_quote T).\nPrint QM.\n"
+            v += "Definition QN := Eval vm_compute in [ascii_entries (Corr.t_quote T)].\nPrint QN.\n"
         out = vcheck.coq_eval(ctx.work, "%s_%d" % (name, k), v)
+        if quote_instance is not None:
+            quote_instance["mismatches"] = quote_instance.get("mismatches", 0) + len(vcheck.parse_nat_list(out, "QM"))
+            quote_instance["ascii_entries"] = quote_instance.get("ascii_entries", 0) + sum(vcheck.parse_nat_list(out, "QN"))
         bad += [k + i for i in vcheck.parse_nat_list(out, "M")]
         dom += [k + i for i in vcheck.parse_nat_list(out, "D")]
         ill += [k + i for i in vcheck.parse_nat_list(out, "W")]
